@@ -454,3 +454,75 @@ func ruleRelativeIDRefused(c *Ctx, rule string) {
 	}
 	c.R.Floor(rule, "tests that a resolved $id is absolute", n, 1)
 }
+
+func init() {
+	for _, pid := range []string{"C20", "C17", "C03", "C15"} {
+		pid := pid
+		Properties[pid].Rules = append(Properties[pid].Rules, Rule{pid + "/no-error-overwritten-in-a-loop", func(c *Ctx) { ruleNoErrorOverwritten(c, pid+"/no-error-overwritten-in-a-loop") }})
+	}
+}
+
+// An error variable that is assigned in every iteration of a loop and looked at only afterwards keeps the result
+// of the last element: the failure of an earlier one is overwritten. In SSA form that is a phi of error type at a
+// loop header whose value from the back edge is what a call returned in the body, regardless of the phi itself.
+func ruleNoErrorOverwritten(c *Ctx, rule string) {
+	n := 0
+	for _, fn := range c.P.Funcs {
+		if !c.P.InPkg(fn) || (fn.Synthetic != "" && !isRangeFuncBody(fn)) {
+			continue
+		}
+		k := 0
+		for _, b := range fn.Blocks {
+			for _, ins := range b.Instrs {
+				phi, ok := ins.(*ssa.Phi)
+				if !ok {
+					break
+				}
+				if !isErrorType(phi.Type()) {
+					continue
+				}
+				for ei, e := range phi.Edges {
+					pred := b.Preds[ei]
+					call, isCall := errCall(e)
+					if !isCall {
+						continue
+					}
+					// the value comes round the loop (a back edge), or out of a loop the phi is not part of
+					lh := b
+					if !b.Dominates(pred) {
+						lh = loopHeaderOf(call.Block())
+						if lh == nil || inLoopOf(lh, b) {
+							continue
+						}
+					}
+					n++
+					// errors.Join(err, f(x)) and the like take the previous value into account
+					uses := false
+					for _, a := range call.Call.Args {
+						for _, v := range append(backSlice(a, 20), a) {
+							if v == ssa.Value(phi) {
+								uses = true
+							}
+						}
+					}
+					// ... and so does a test of the fresh value inside the loop (if err != nil { return/break })
+					tested := false
+					if refs := e.Referrers(); refs != nil {
+						for _, r := range *refs {
+							if bo, ok := r.(*ssa.BinOp); ok && (bo.Op == token.NEQ || bo.Op == token.EQL) && bo.Referrers() != nil {
+								for _, r2 := range *bo.Referrers() {
+									if _, isIf := r2.(*ssa.If); isIf && inLoopOf(lh, r2.Block()) {
+										tested = true
+									}
+								}
+							}
+						}
+					}
+					k++
+					c.R.Check(uses || tested, rule, fmt.Sprintf("%s:carried-error#%d", core.FuncName(fn), k), c.pos(call), "the error carried around the loop is combined with, or tested before, the next one", "an error variable is assigned what a call returned in every iteration of a loop and examined only after the loop: the failure of an earlier element is overwritten by the success of a later one, so the function reports success although one element failed (a schema shared between two places of the tree, a bad reference) unless it happens to be the last")
+				}
+			}
+		}
+	}
+	c.R.OK(rule, "loops-examined", "", fmt.Sprintf("%d back-edge values of error variables examined", n))
+}
